@@ -109,9 +109,11 @@ def fillTop (pages : List PPage) (off n v : Nat) : List PPage :=
 
 def topBytesLen (s : DynamicPool) : Nat := match s.pages with | p :: _ => p.bytes.length | [] => 0
 
-/-- `cc_dynamic_pool_calloc`: the request is `count * size` in `size_t` arithmetic -/
+/-- `cc_dynamic_pool_calloc`: NULL when `count * size` overflows `size_t`, else the request is the
+product -/
 def calloc (grow : Nat → Nat) (fresh : Nat) (s : DynamicPool) (count sz : Nat) (m : Mem) :
     Option (Nat × Nat) × DynamicPool × Mem :=
+  if mulOverflows count sz then (none, s, m) else
   let n := (count * sz) % sizeMod
   let r := malloc grow fresh s n m
   match r.1 with
